@@ -31,24 +31,28 @@ pub fn create(array: InstructionWithStr) -> Result<Instruction, Error> {
     .into())
 }
 
-pub fn exec(var: Variable) -> ExecResult {
+pub fn exec(var: Variable, static_type: &Type) -> ExecResult {
+    // The iterator's own type may be narrower than the static type of the operand
+    // (`[]~` is `() -> (bool, !)` and matches every accepted type), so the reducer is
+    // chosen only among those the static type admits.
     let return_type = var.as_type();
-    if return_type.matches(&var_type!(() -> (bool, int))) {
-        Ok(Variable::from(INT_SUM)
-            .as_function()
-            .unwrap()
-            .exec_with_args(&[var])?)
-    } else if return_type.matches(&var_type!(() -> (bool, float))) {
-        Ok(Variable::from(FLOAT_SUM)
-            .as_function()
-            .unwrap()
-            .exec_with_args(&[var])?)
+    let int_iter = var_type!(() -> (bool, int));
+    let float_iter = var_type!(() -> (bool, float));
+    let string_iter = var_type!(() -> (bool, string));
+    let any_admitted = [&int_iter, &float_iter, &string_iter]
+        .iter()
+        .any(|iter_type| iter_type.matches(static_type));
+    let choose = |iter_type: &Type| {
+        return_type.matches(iter_type) && (!any_admitted || iter_type.matches(static_type))
+    };
+    let sum = if choose(&int_iter) {
+        Variable::from(INT_SUM)
+    } else if choose(&float_iter) {
+        Variable::from(FLOAT_SUM)
     } else {
-        Ok(Variable::from(STRING_SUM)
-            .as_function()
-            .unwrap()
-            .exec_with_args(&[var])?)
-    }
+        Variable::from(STRING_SUM)
+    };
+    Ok(sum.as_function().unwrap().exec_with_args(&[var])?)
 }
 
 #[cfg(test)]
